@@ -541,6 +541,65 @@ func runC02(r *mc.Run) {
 			r.Eval(id, true, "config:"+out)
 		}
 	}
+	// an archived quote: its whole PKI (2015 .. end of 2024) has expired by today's wall clock, and it is verified as
+	// of 2023-07-01. A configuration that lists that root trusts it at the verification time it is asked about
+	{
+		nb, na := time.Date(2015, 1, 1, 0, 0, 0, 0, time.UTC), time.Date(2024, 12, 31, 0, 0, 0, 0, time.UTC)
+		A := &world.PKI{Name: "C02A", RootKey: world.NewKey("C02A/root"), InterKey: world.NewKey("C02A/inter"), LeafKey: world.NewKey("C02A/leaf"), TcbKey: world.NewKey("C02A/tcb")}
+		A.Root = world.MakeCert(world.CertSpec{CN: world.CNRoot, IsCA: true, Key: A.RootKey, MaxPathLen: 1, NotBefore: nb, NotAfter: na}, nil, A.RootKey)
+		A.Inter = world.MakeCert(world.CertSpec{CN: world.CNPlatform, IsCA: true, Key: A.InterKey, MaxPathLen: -1, NotBefore: nb, NotAfter: na}, A.Root, A.RootKey)
+		A.Leaf = world.MakeCert(world.CertSpec{CN: world.CNLeaf, Key: A.LeafKey, SGXExt: world.SGXExtension(world.DefaultPlatform()), NotBefore: nb, NotAfter: na}, A.Inter, A.InterKey)
+		spec := world.QuoteSpec{PKI: A, FillLabel: "c02-archive"}
+		parts := spec.Parts()
+		parts.SignBody(world.NewKey("att"))
+		rawA, _ := parts.Bytes()
+		asOf := world.TimeSetAt(time.Date(2023, 7, 1, 0, 0, 0, 0, time.UTC))
+		fA := wf("A.pem", world.PEM(A.Root))
+		for _, ac := range []struct {
+			name string
+			rot  *ccpb.RootOfTrust
+			want bool
+		}{
+			{"file-A", &ccpb.RootOfTrust{CabundlePaths: []string{fA}}, true},
+			{"inline-A", &ccpb.RootOfTrust{Cabundles: []string{string(world.PEM(A.Root))}}, true},
+			{"file-T+inline-A", &ccpb.RootOfTrust{CabundlePaths: []string{fT}, Cabundles: []string{string(world.PEM(A.Root))}}, true},
+			{"inline-A+T-one-bundle", &ccpb.RootOfTrust{Cabundles: []string{string(world.PEM(A.Root, T.Root))}}, true},
+			{"file-T-only", &ccpb.RootOfTrust{CabundlePaths: []string{fT}}, false},
+		} {
+			id := "config/archive/" + ac.name
+			if !r.Want(id) {
+				continue
+			}
+			var opts *verify.Options
+			var cerr error
+			func() { defer world.Recover(&cerr); opts, cerr = verify.RootOfTrustToOptions(ac.rot) }()
+			out := "config-error"
+			switch {
+			case world.IsPanic(cerr):
+				r.Violate("config:panic", id, "RootOfTrustToOptions crashes: "+errStr(cerr), nil)
+			case cerr != nil && ac.want:
+				r.Violate("config:refused-a-listed-root", id, "a configuration listing a well-formed root is refused: "+errStr(cerr), nil)
+				out = "config-error!"
+			case cerr == nil:
+				now := asOf
+				opts.Now = &now
+				err := verifyRawBoth(r, id, rawA, opts)
+				out = verdict(err)
+				direct := world.SafeVerifyRaw(rawA, &verify.Options{Now: &now, TrustedRoots: world.Pool(A.Root)})
+				switch {
+				case direct != nil:
+					r.HarnessError("C02 archive world is not accepted with its root given directly: %v", direct)
+				case err != nil && ac.want:
+					r.Violate("config:distrusts-listed:archive", id, "a quote under a listed root, verified as of a time inside that root's validity, is rejected: "+errStr(err), nil)
+					out = "reject!"
+				case err == nil && !ac.want:
+					r.Violate("config:trusts-unlisted:archive", id, "a quote under a root the configuration does not list is accepted", nil)
+					out = "accept!"
+				}
+			}
+			r.Eval(id, true, "config-archive:"+out)
+		}
+	}
 	// Intel's sample quote against every configuration: only a configuration that lists nothing at all
 	// falls back to the embedded Intel root; one that names bundles trusts exactly what they contain.
 	for _, cfg := range cfgs {
